@@ -4,7 +4,7 @@ Real code executed symbolically: encode_message, decode_message_len, decode_mess
 execute_server_command.  Stand-ins: pickle -> an opaque injective codec (identity on symbolic bytes), struct '!I' ->
 big-endian arithmetic, uuid.UUID -> a 16-byte wrapper, reader = the readexactly contract over the concatenated stream.
 """
-from vt.world import enter, verdict, cfg, CFG, pick
+from vt.world import enter, verdict, cfg, CFG, pick, MODE
 import klongpy.sys_fn_ipc as IPC
 from klongpy.core import KGSym, KGFn, KGLambda, KGFnWrapper, KlongException
 from vt.props.ipcstub import Fut, step, Prov, Loop, patch, unpatch
@@ -123,6 +123,312 @@ def frames(p1: bytes, p2: bytes, p3: bytes, cut: int) -> bool:
             if not (k == 'ret' and v[0].bytes == IDS[i] and v[1] == ps[i] and rd.pos == boundary):
                 return verdict(False)
         # nothing after the last frame
+        k, v = step(IPC.stream_recv_msg(rd))
+        return verdict(k == 'exc' and isinstance(v, IPC.IncompleteReadError))
+    finally:
+        unpatch()
+
+
+# ------------------------------------------------------------------------------------------- framing over abstract lengths
+# The payload bytes never influence framing; their LENGTHS do.  Here a frame body is an opaque block whose length is a symbolic
+# integer anywhere in [0, 2^32), so size thresholds in the reading code (chunked reads, buffer limits) are inside the search.
+class Desync(Exception):
+    """a header field was assembled from bytes that are not that field: the reader has lost the frame boundaries"""
+
+
+class AB:
+    """abstract bytes: a sequence of parts  ('id', i) 16 bytes | ('len', value) 4 bytes | ('body', i, lo, hi) bytes lo..hi of body i"""
+    def __init__(self, parts=()):
+        self.parts = [p for p in parts if AB.plen(p) != 0]
+
+    @staticmethod
+    def plen(p):
+        if p[0] == 'id':
+            return 16 if len(p) == 2 else p[3] - p[2]
+        if p[0] == 'len':
+            return 4 if len(p) == 2 else p[3] - p[2]
+        return p[3] - p[2]
+
+    def __len__(self):
+        n = 0
+        for p in self.parts:
+            n = n + AB.plen(p)
+        return n
+
+    def __add__(self, o):
+        if isinstance(o, (bytes, bytearray)) and len(o) == 0:
+            return self
+        return AB(self.parts + _ab(o).parts)
+
+    def __radd__(self, o):
+        if isinstance(o, (bytes, bytearray)) and len(o) == 0:
+            return self
+        return AB(_ab(o).parts + self.parts)
+
+    def cut(self, a, b):
+        """bytes a..b of this sequence (0 <= a <= b <= len)"""
+        out = []; off = 0
+        for p in self.parts:
+            n = AB.plen(p)
+            lo = a - off if a > off else 0
+            hi = b - off if b - off < n else n
+            if lo < hi:
+                if lo == 0 and hi == n:
+                    out.append(p)
+                else:
+                    base = p[2] if len(p) == 4 else 0
+                    tag = p[:2]
+                    out.append((tag[0], tag[1], base + lo, base + hi))
+            off = off + n
+        return AB(out)
+
+
+_IDPARTS = {}
+
+
+def _ab(o):
+    if isinstance(o, AB):
+        return o
+    if isinstance(o, (bytes, bytearray)):
+        o = bytes(o)
+        if o in _IDPARTS:
+            return AB([('id', _IDPARTS[o])])
+        if len(o) == 0:
+            return AB()
+    raise Desync("concrete bytes mixed into the abstract stream")
+
+
+class ACodec:
+    """pickle stand-in over abstract payloads.  Like the real pickle.loads it stops at the end of the pickled object: trailing
+    bytes after a complete body are ignored (which is exactly why an over-read is silent)."""
+    @staticmethod
+    def dumps(m):
+        return AB([('body', m.i, 0, m.n)])
+
+    @staticmethod
+    def loads(b):
+        b = _ab(b)
+        if not b.parts:
+            raise EOFError("Ran out of input")
+        p = b.parts[0]
+        if p[0] != 'body' or p[2] != 0:
+            raise Desync("payload does not start at a body")
+        if p[3] != ACodec.bodies[p[1]].n:
+            raise EOFError("pickle data was truncated")
+        return ACodec.bodies[p[1]]
+    bodies = []
+
+
+class AStruct:
+    class error(Exception):
+        pass
+
+    @staticmethod
+    def pack(fmt, n):
+        assert fmt == "!I"
+        if n < 0 or n >= 4294967296:
+            raise AStruct.error("'I' format requires 0 <= number <= 4294967295")
+        return AB([('len', n)])
+
+    @staticmethod
+    def unpack(fmt, b):
+        b = _ab(b)
+        if len(b.parts) != 1 or b.parts[0][0] != 'len' or len(b.parts[0]) != 2:
+            raise Desync("length field assembled from other bytes")
+        return (b.parts[0][1],)
+
+
+class AUid:
+    def __init__(self, bytes=None):
+        if isinstance(bytes, AB):
+            if len(bytes.parts) != 1 or bytes.parts[0][0] != 'id' or len(bytes.parts[0]) != 2:
+                raise Desync("message id assembled from other bytes")
+            self.i = bytes.parts[0][1]; self.bytes = IDS[self.i]
+        else:
+            self.bytes = bytes; self.i = IDS.index(bytes)
+
+
+class AUuidNS:
+    UUID = AUid
+
+
+class Body:
+    def __init__(self, i, n):
+        self.i = i; self.n = n
+
+
+class AReader:
+    """asyncio.StreamReader contract over the abstract stream: readexactly(n) returns exactly n bytes or raises
+    IncompleteReadError; read(n) returns at least one and at most n of the bytes that have arrived (how many is the
+    environment's choice: symbolic), b'' at end of stream."""
+    def __init__(self, stream, limit, choices):
+        self.s = stream; self.limit = limit; self.pos = 0; self.choices = list(choices)
+
+    async def readexactly(self, n):
+        if n < 0:
+            raise ValueError("readexactly size can not be less than zero")
+        if self.pos + n > self.limit:
+            part = self.s.cut(self.pos, self.limit); self.pos = self.limit
+            raise IPC.IncompleteReadError(part, n)
+        r = self.s.cut(self.pos, self.pos + n); self.pos = self.pos + n
+        return r if n > 0 else b""
+
+    async def read(self, n=-1):
+        avail = self.limit - self.pos
+        if avail <= 0:
+            return b""
+        if n < 0 or n > avail:
+            n = avail
+        k = self.choices.pop(0) if self.choices else n
+        if k < 1 or k > n:
+            k = n
+        r = self.s.cut(self.pos, self.pos + k); self.pos = self.pos + k
+        return r
+
+
+class AWriter:
+    def __init__(self):
+        self.buf = AB(); self.drains = 0
+
+    def write(self, b):
+        self.buf = self.buf + b
+
+    async def drain(self):
+        self.drains += 1
+
+
+def _payload_of_pickled_len(want):
+    """a bytes value whose pickle is `want` bytes long (or as close as possible)"""
+    import pickle as _p
+    if want <= 4:
+        return None
+    k = max(0, want - 40)
+    best = b""
+    while k <= want:
+        v = b"x" * k
+        n = len(_p.dumps(v))
+        if n == want:
+            return v
+        if n > want:
+            break
+        best = v; k += 1
+    return best
+
+
+def _real_frames(ls, cut, rs):
+    """replay on the REAL implementation: real pickle / struct / uuid, a real asyncio.StreamReader fed with the real frames in
+    three fragmentations (all at once, guided by the partial-read sizes of the counterexample, small drips)"""
+    import asyncio, uuid as _uuid
+    ids = [_uuid.UUID(bytes=IDS[i]) for i in range(len(ls))]
+    payloads = [_payload_of_pickled_len(min(l, 1 << 22)) for l in ls]
+    frames_ = [IPC.encode_message(ids[i], payloads[i]) for i in range(len(ls))]
+    data = b"".join(frames_)
+    total = len(data)
+    cutb = total if cut >= sum(20 + l for l in ls) else min(cut, total)
+    bounds_ = []
+    acc = 0
+    for f in frames_:
+        acc += len(f); bounds_.append(acc)
+    frag_sets = [[cutb], [20] + [r for r in rs if r > 0] + [cutb], [7] * 50 + [cutb]]
+
+    async def run(frags):
+        reader = asyncio.StreamReader()
+        fed = 0
+        out = []
+
+        async def feeder():
+            nonlocal fed
+            for f in frags:
+                k = min(f, cutb - fed)
+                if k > 0:
+                    reader.feed_data(data[fed:fed + k]); fed += k
+                await asyncio.sleep(0)
+            if fed < cutb:
+                reader.feed_data(data[fed:cutb]); fed = cutb
+            reader.feed_eof()
+        t = asyncio.ensure_future(feeder())
+        for i in range(len(ls) + 1):
+            try:
+                out.append(("ret", await asyncio.wait_for(IPC.stream_recv_msg(reader), 20)))
+            except Exception as e:
+                out.append(("exc", e)); break
+        await t
+        return out
+    for frags in frag_sets:
+        out = asyncio.run(run(frags))
+        for i in range(len(ls)):
+            complete = cutb >= bounds_[i]
+            if i >= len(out):
+                return False
+            k, v = out[i]
+            if complete:
+                if not (k == "ret" and v[0] == ids[i] and v[1] == payloads[i]):
+                    return False
+            else:
+                if k != "exc":
+                    return False
+                break
+        else:
+            if len(out) != len(ls) + 1 or out[-1][0] != "exc":
+                return False
+    return True
+
+
+def frames_abstract(l1: int, l2: int, l3: int, cut: int, r1: int, r2: int, r3: int, r4: int) -> bool:
+    """
+    pre: 4 <= l1 < 4294967296 and 4 <= l2 < 4294967296 and 4 <= l3 < 4294967296
+    pre: 0 <= cut
+    post: _
+    """
+    # n frames whose bodies have ANY length below 2^32; the stream is complete or cut anywhere; partial reads return any
+    # legal amount.  Each receive must return its own frame and leave the reader exactly on the next frame boundary.
+    enter()
+    n = cfg("frames", 3)
+    ls = [l1, l2, l3][:n]
+    if MODE == "real":
+        return _real_frames(ls, cut, [r1, r2, r3, r4])
+    bodies = [Body(i, ls[i]) for i in range(n)]
+    ACodec.bodies = bodies
+    _IDPARTS.clear()
+    for i in range(n):
+        _IDPARTS[IDS[i]] = i
+    patch(pickle=ACodec, struct=AStruct, uuid=AUuidNS)
+    try:
+        w = AWriter()
+        for i in range(n):
+            k, v = step(IPC.stream_send_msg(w, AUid(IDS[i]), bodies[i]))
+            if k != 'ret':
+                return verdict(False)
+        stream = w.buf
+        total = len(stream)
+        want = 0
+        for i in range(n):
+            want = want + 20 + ls[i]
+        if total != want or w.drains != n:
+            return verdict(False)
+        if cut > total:
+            cut = total
+        rd = AReader(stream, cut, [r1, r2, r3, r4])
+        boundary = 0
+        for i in range(n):
+            boundary = boundary + 20 + ls[i]
+            try:
+                k, v = step(IPC.stream_recv_msg(rd))
+            except Desync:
+                return verdict(False)
+            if k == 'exc' and isinstance(v, Desync):
+                return verdict(False)
+            if k == 'exc' and isinstance(v, TypeError):
+                # the code under test applied a bytes operation the abstract payload does not implement (e.g. b"".join of
+                # chunks).  The position of the reader is still meaningful: past the frame boundary = bytes of the next frame eaten
+                if cut >= boundary and rd.pos > boundary:
+                    return verdict(False)
+                from vt.world import cut as _cutpath
+                _cutpath("abstract payload met an unsupported bytes operation"); return True
+            if cut < boundary:
+                return verdict(k == 'exc' and isinstance(v, (IPC.IncompleteReadError, EOFError)))
+            if not (k == 'ret' and v[0].bytes == IDS[i] and v[1] is bodies[i] and rd.pos == boundary):
+                return verdict(False)
         k, v = step(IPC.stream_recv_msg(rd))
         return verdict(k == 'exc' and isinstance(v, IPC.IncompleteReadError))
     finally:
@@ -253,14 +559,18 @@ def dispatch(kind: int, a: int, b: int) -> bool:
 def bounds(tier):
     q = tier == "quick"
     return {"frames": "2 (payload <= 3 bytes each)" if q else "2 (payload <= 6 bytes) and 3 (payload <= 3 bytes)",
+            "abstract framing": "%d frames whose body lengths are symbolic integers in [4, 2^32) (the shortest pickle has 4 bytes); symbolic cut; up to 4 symbolic partial-read sizes" % (2 if q else 3),
             "cut point": "any byte position of the stream, or none", "commands": "11 command/interpreter-state classes, symbolic integer parameters"}
 
 
 def obligations(tier):
     q = tier == "quick"
     obs = [{"name": "framing 2 frames payload<=3", "fn": "frames", "cfg": {"frames": 2, "maxlen": 3}, "timeout": 300 if q else 900},
+           {"name": "framing over abstract lengths: 2 frames, any body length < 2^32, any cut, any partial-read sizes", "fn": "frames_abstract",
+            "cfg": {"frames": 2}, "timeout": 300 if q else 900},
            {"name": "server command dispatch", "fn": "dispatch", "cfg": {}, "timeout": 120}]
     if not q:
+        obs.append({"name": "framing over abstract lengths: 3 frames", "fn": "frames_abstract", "cfg": {"frames": 3}, "timeout": 1800})
         obs.append({"name": "framing 3 frames payload<=3", "fn": "frames", "cfg": {"frames": 3, "maxlen": 3}, "timeout": 1800})
         obs.append({"name": "framing 2 frames payload<=6", "fn": "frames", "cfg": {"frames": 2, "maxlen": 6}, "timeout": 1800})
     return obs
